@@ -62,6 +62,19 @@ def subharnesses(tier):
                                 'more_events': [['igroup', 'g', newcount]]}
                         subs.append(('%s-D%d-A%d-n%d-%s-rmserver_shrink%d' % (
                             topo, D, A, count, g1.ptag(pl), newcount), spec))
+                # the count is lowered to the highest held identity (or to 0)
+                # and raised again before a cycle runs
+                if placed and count == 2:
+                    for low in (1, 0):
+                        for high in (2, 3):
+                            spec = {'topo': topo, 'D': D, 'servers': [{}, {}],
+                                    'apps': apps, 'igroups': {'g': count},
+                                    'event': ['igroup', 'g', low],
+                                    'more_events': [['igroup', 'g', high]]}
+                            subs.append((
+                                '%s-D%d-A%d-n%d-%s-count_%d_then_%d' % (
+                                    topo, D, A, count, g1.ptag(pl), low,
+                                    high), spec))
                 if placed:
                     for st in ('down', 'frozen'):
                         spec = {'topo': topo, 'D': D, 'servers': [{}, {}],
